@@ -27,6 +27,10 @@ ENGINES = {
             "no_sse2": ["--features", "no_avx512,no_avx2,no_sse41,no_sse2"],
         },
     },
+    "clib": {
+        "dir": "engines/clib", "bin": "vclib", "env": {"RUSTFLAGS": ""},
+        "configs": {"asm": [], "intrinsics": ["--features", "intrinsics"], "portable_only": ["--features", "portable_only"]},
+    },
     "b3sum": {
         "dir": "engines/b3sum", "bin": "vb3",
         "configs": {"default": []},
@@ -80,11 +84,16 @@ def c04_post(merged, reports, tier):
     merged.pop("stock_ledger", None)
 
 
+def c06_runs(tier):
+    return [{"engine": "clib", "cfg": c, "tag": c} for c in ["asm", "intrinsics", "portable_only"]]
+
+
 PLANS = {
     "C01": {"level": "exploration", "runs": simple("core", "asm-default")},
     "C02": {"level": "model_checking", "runs": simple("core", "asm-default")},
     "C03": {"level": "model_checking", "runs": simple("core", "asm-default")},
     "C04": {"level": "exploration", "runs": c04_runs, "post": c04_post},
+    "C06": {"level": "model_checking", "runs": c06_runs},
     "C09": {"level": "exploration", "runs": simple("core", "asm-default")},
     "C10": {"level": "model_checking", "runs": simple("core", "asm-default")},
     "C12": {"level": "fault_enumeration", "runs": simple("b3sum", "default")},
